@@ -5,25 +5,56 @@ _REQ = ["src/HttpRequest.cc", "src/http/Message.cc", "src/anyp/Uri.cc", "src/any
         "src/http/MethodType.cc", "src/log/access_log.cc", "src/MasterXaction.cc", "src/base/Stopwatch.cc"]
 _U = TOK + _HDR + _REQ + ["src/http/Stream.cc", "src/client_side.cc", "src/client_side_request.cc", "src/HttpHdrRange.cc", "src/HttpHdrContRange.cc",
                           "src/HttpReply.cc", "src/HttpBody.cc", "src/HttpHdrCc.cc", "src/http/StatusLine.cc", "src/http/StatusCode.cc", "src/LogTags.cc", "src/cbdata.cc"]
-_e = lambda n, b, r, **kw: dict(name=n, bounds=b, reach=list(r), **dict(dict(sample_every=97, max_samples=3), **kw))
+_e = lambda n, b, r, **kw: dict(name=n, bounds=b, reach=list(r), **dict(dict(sample_every=197, max_samples=3), **kw))
+_SHAPES = "each spec of any shape first-last / first- / -suffix as HttpHdrRangeSpec::parseInit() leaves it"
+_ENV = ("cached (TCP_HIT) or not, for misses range_offset_limit %s; object bytes fully symbolic; stored reply 200 with Content-Length; first body buffer at offset 0 with 0..B bytes, "
+        "then a buffer of 1..B bytes (symbolic) at every offset pullData() asks for, B = %d. Oracle: the response text is parsed (status, Content-Length, Content-Range, multipart "
+        "delimiters and part headers): 206 => every part's bytes = object[a..b] of its Content-Range a-b/clen, parts together = exactly the satisfiable requested bytes, Content-Length = "
+        "body bytes sent, stream completes; 200 => whole object, no Content-Range; nothing satisfiable => not 206")
 SPEC = dict(
     harness="C15_ranges.cc", units=_U, unit_flags={"compat/xstring.cc": ["-Dxstrdup=vf_unused_squid_xstrdup"]},
     scope="kernel",
-    scope_note="kernel decided: ...; gap: ...",
+    scope_note="kernel decided: for a stored 200 reply with known length and a parsed Range header, Http::Stream::buildRangeHeader() (with HttpHdrRange::canonize/isComplex/"
+               "offsetLimitExceeded, ClientHttpRequest::prepPartialResponseGeneration/mRangeCLen, httpHeaderAddContRange) and the body path getNextRangeOffset/lengthToSend/"
+               "noteSentBodyBytes/canPackMoreRanges/packRange (with clientPackRangeHdr/clientPackTermBound, HttpHdrRangeIter, MemBuf) produce either a 206 whose part(s) carry exactly "
+               "the bytes their Content-Range states and together exactly the satisfiable requested bytes, with a Content-Length equal to what is sent, or (unsatisfiable, overlapping/"
+               "out-of-order, or a miss beyond range_offset_limit) the whole representation with 200 -- however the store cuts the body into buffers; Squid never answers 416 itself. "
+               "gap: the store side (clientReplyContext, store_client::copy really returning the bytes at the requested offset), Http::Stream::sendStartOfMessage/sendBody/"
+               "writeComplete/socketState/pullData themselves (10-line dispatch functions mirrored by the harness: they need a live ConnStateData) and comm; Range header parsing (C28); "
+               "If-Range; replies that already are 206 or lack Content-Length (ranges are then ignored/relayed); chunked replies; range_offset_limit ACLs; objects/buffers beyond the bounds",
     entries=dict(
         quick=[
-            _e("c15_single", "x", ("206-single", "200-full", "200-unsatisfiable")),
-            _e("c15_multi", "x", ("206-multi", "206-single", "200-full", "200-unsatisfiable")),
-            _e("c15_big", "x", ("206-multi", "206-single")),
-            _e("c15_arith", "x", ("complete", "in-progress")),
+            _e("c15_single", "object of 1..5 bytes; 1 spec, " + _SHAPES + " with numbers 0..6 (symbolic, case-split); " + _ENV % ("0 (default) / none / 1", 3), ("206-single", "200-full", "200-unsatisfiable")),
+            _e("c15_multi", "object of 4 bytes; 2 specs, " + _SHAPES + " with numbers 0..3 (includes overlapping, out of order, adjacent, one unsatisfiable); " + _ENV % ("none", 3),
+               ("206-multi", "206-single", "200-full", "200-unsatisfiable")),
+            _e("c15_big", "object of 2^31+2, 2^32+2 or 2^62 bytes whose last 4 bytes are the symbolic window; 1..2 specs with numbers window start + 0..3 (suffix 0..3), satisfiable and in order; "
+               + _ENV % ("none", 4) + " (the first buffer holds 0..4 bytes of the object's start)", ("206-multi", "206-single")),
+            _e("c15_arith", "one canonical spec, offset in {0, 2^32-1, 2^62-9000}, length in {1, 4097, 2^32+4096}, object ends 0..1 bytes after it; one delivery step from an arbitrary point of the "
+               "transfer (induction over the buffers): bytes already sent = symbolic distance 0..8192 from the start or from the end of the range, or the first buffer (offset 0); buffer length "
+               "symbolic 0/1..4096: bytes used = min(buffer, rest) from the first missing position only, debt/offset updated, completion iff rest sent, next pull = first missing byte",
+               ("complete", "in-progress"), sample_every=7),
         ],
         thorough=[
-            _e("c15_single", "x", ("206-single", "200-full", "200-unsatisfiable")),
-            _e("c15_multi", "x", ("206-multi", "206-single", "200-full", "200-unsatisfiable")),
-            _e("c15_big", "x", ("206-multi", "206-single")),
-            _e("c15_arith", "x", ("complete", "in-progress")),
+            _e("c15_single", "as quick with objects of 1..6 bytes and numbers 0..7", ("206-single", "200-full", "200-unsatisfiable"), sample_every=997),
+            _e("c15_multi", "as quick with an object of 5 bytes, numbers 0..5, buffers of up to 3 bytes, range_offset_limit 0 / none / 1 for misses",
+               ("206-multi", "206-single", "200-full", "200-unsatisfiable"), sample_every=9973),
+            _e("c15_big", "as quick plus an object of 2^32+4098 bytes, numbers window start + 0..4, buffers of up to 3 bytes, range_offset_limit also = window start + 1",
+               ("206-multi", "206-single"), sample_every=9973),
+            _e("c15_arith", "as quick with offsets {0, 1, 4095, 4096, 2^31-1, 2^31, 2^32-1, 2^32, 2^62-9000} x lengths {1, 2, 4095, 4096, 4097, 8192, 2^31+1, 2^32+4096}", ("complete", "in-progress"), sample_every=37),
         ]),
     timeout=dict(quick=400, thorough=2400),
-    stubs=[],
-    outside="",
+    stubs=["Http::Stream is a real object (real constructor, no connection); ClientHttpRequest, StoreEntry, MemObject, AccessLogEntry are zeroed raw memory with exactly these members set: "
+           "ClientHttpRequest::request/al/entry_ (out, range_iter start zeroed), StoreEntry::mem_obj, MemObject::reply_ (the stored reply), AccessLogEntry::cache.code (TCP_HIT or TCP_MISS)",
+           "HttpRequest, MasterXaction, both HttpReply objects (stored reply and the copy being sent: status 200, Content-Type, Content-Length) are real; HttpRequest::range is filled with "
+           "HttpHdrRangeSpec objects as parseInit() produces them; HttpRequest::rangeOffsetLimit is set directly (what getRangeOffsetLimit() caches per request)",
+           "harness mirrors of Http::Stream::sendStartOfMessage()/sendBody() (without delay pools and chunking; ConnStateData::write() replaced by appending to the output array) and of "
+           "writeComplete()/socketState()/pullData() (completion = !canPackMoreRanges() for ranges, whole object sent otherwise; next store read at getNextRangeOffset())",
+           "StoreEntry::getMD5Text() returns a constant (multipart boundary text; store.cc not linked); visible_appname_string = \"squid\"; null_string; ping_data constructor; "
+           "StatHist::enumInit/count no-ops; MemPools::create() = plain heap (cbdata allocation of MemBuf); SquidConfig Config zero-initialised",
+           "c15_arith: range_iter.debt and out.offset of the mid-transfer state are set directly to len-sent / offset+sent (the state shown to be kept by every step)",
+           "compat/xstring.cc is the real file with its xstrdup renamed away (xstrdup is an engine model)", "debugs() disabled"],
+    assumptions=["the store returns, for a read at offset o, the object's bytes starting exactly at o (clientReplyContext::pushStreamData() asserts result.offset == readBuffer.offset)",
+                 "'cover the requested satisfiable ranges' is checked as set equality between the bytes of all parts and the satisfiable requested bytes (Squid does not merge ranges)"],
+    outside="objects longer than 6 bytes other than the big-offset windows; more than 2 specs; numbers beyond the listed menus; symbolic positions in c15_arith are restricted to boundary menus "
+            "plus a symbolic 13-bit distance/buffer length (wider symbolic 64-bit chains through memory exceed the solver: see report); everything listed under gap",
 )
